@@ -35,11 +35,21 @@ func init() {
 	})
 }
 
+var c15K, c15OP, c15RAND [16]byte
+
 func sqnLess(a, b []byte) bool { return bytes.Compare(a, b) < 0 }
 
 func runC15(c *fw.Case) (o fw.Outcome) {
 	r := c.R
-	k, op, rnd := cornerBytes(r, 16), cornerBytes(r, 16), cornerBytes(r, 16)
+	// the caller's buffers for K, OP and RAND are re-used from case to case and overwritten in place, as a subscriber
+	// loader does: results must depend on the contents, not on the identity of the slices
+	k, op, rnd := c15K[:], c15OP[:], c15RAND[:]
+	copy(k, cornerBytes(r, 16))
+	copy(op, cornerBytes(r, 16))
+	copy(rnd, cornerBytes(r, 16))
+	if c.Idx%3 == 0 { // and sometimes fresh slices
+		k, op, rnd = append([]byte(nil), k...), append([]byte(nil), op...), append([]byte(nil), rnd...)
+	}
 	amf := rbytes(r, 2)
 	sqnNet := rbytes(r, 6)
 	sqnUE := append([]byte(nil), sqnNet...)
